@@ -105,6 +105,7 @@ type scope struct {
 	pa       []int  // arity of block parameters
 	retBlock bool
 	retArity int
+	retKind  byte
 
 	// analysis
 	parent   *scope
